@@ -166,7 +166,32 @@ def _closure_call_target(F, f, t):
                 return F.fns[a["closure"]], t["args"][0]
             return None
         l = a["pl"]["l"]
-        if a["pl"].get("p") or l in seen:
+        proj = [e for e in a["pl"].get("p", []) if e != "*"]
+        if proj:
+            # a closure captured by another closure (`KEY.with(|table| f(&mut table.borrow_mut()))`): `env.i` / `(*env).i` is what the enclosing closure was built with
+            if len(proj) != 1 or not isinstance(proj[0], dict) or "f" not in proj[0] or ("env", l) in seen:
+                return None
+            seen.add(("env", l))
+            el, agg = l, None
+            for _ in range(32):
+                ds = [d for d in f.defs().get(el, []) if d[1] is not None and not f.is_cleanup(d[0])]
+                if len(ds) != 1:
+                    break
+                rv = ds[0][2]["rv"]
+                if rv["r"] == "agg" and "closure" in rv["kind"]:
+                    agg = rv
+                    break
+                if rv["r"] in ("use", "cast") and rv["a"][0]["k"] != "c" and not rv["a"][0]["pl"].get("p"):
+                    el = rv["a"][0]["pl"]["l"]
+                elif rv["r"] in ("ref", "raw") and not rv["pl"].get("p"):
+                    el = rv["pl"]["l"]
+                else:
+                    break
+            if agg is None or proj[0]["f"] >= len(agg["a"]):
+                return None
+            a = agg["a"][proj[0]["f"]]
+            continue
+        if l in seen:
             return None
         seen.add(l)
         ds = [d for d in f.defs().get(l, []) if d[1] is not None and not f.is_cleanup(d[0])]
@@ -627,7 +652,8 @@ def inline_function(F, f, cm, done, depth=0):
             cc = _closure_call_target(F, Fn(raw, F), t)
             if cc:
                 g, mode, wop = cc[0], "closure-call", cc[1]
-        if g is None or g.path == f.path or not inlinable(F, g):
+        # (a closure handed to a helper and invoked there is inlined whatever its number: `f::{closure#0}` of the reference may be another closure today)
+        if g is None or g.path == f.path or not (inlinable(F, g) or (mode == "closure-call" and g.kind == "Closure")):
             continue
         if depth >= MAX_DEPTH:
             continue
@@ -652,8 +678,16 @@ def inline_function(F, f, cm, done, depth=0):
             # call_once(closure, (a, b, ..)): closure body params are (env, a, b, ..)
             actuals = [t["args"][0]]
             tup = t["args"][1] if len(t["args"]) > 1 else None
+            tup_agg = None
+            if tup is not None and tup["k"] in ("cp", "mv") and not tup["pl"].get("p"):
+                # the argument tuple is usually built right before the call: bind the parameters to its operands, not to projections of it
+                tds = [st_ for bb_ in blocks for st_ in bb_["st"] if st_.get("s") == "assign" and st_["lhs"]["l"] == tup["pl"]["l"] and not st_["lhs"].get("p")]
+                if len(tds) == 1 and tds[0]["rv"]["r"] == "agg" and "tuple" in tds[0]["rv"]["kind"]:
+                    tup_agg = tds[0]["rv"]["a"]
             for j in range(graw["argc"] - 1):
-                if tup is not None and tup["k"] in ("cp", "mv"):
+                if tup_agg is not None and j < len(tup_agg):
+                    actuals.append(copy.deepcopy(tup_agg[j]))
+                elif tup is not None and tup["k"] in ("cp", "mv"):
                     pl = {"l": tup["pl"]["l"], "p": list(tup["pl"].get("p", [])) + [{"f": j, "n": str(j), "t": ""}]}
                     actuals.append({"k": "mv", "pl": pl})
         elif mode == "with-closure":
@@ -673,6 +707,175 @@ def inline_function(F, f, cm, done, depth=0):
         inlined.append(g.path)
     raw["inlined"] = sorted(set(raw.get("inlined", []) + inlined))
     return raw
+
+
+def _each_place(raw, fn):
+    """apply fn (place dict -> place dict) to every place of the body, in place"""
+    def op(o):
+        if o.get("k") in ("cp", "mv"):
+            o = dict(o)
+            o["pl"] = fn(o["pl"])
+        return o
+    for blk in raw["blocks"]:
+        for st in blk["st"]:
+            if "lhs" in st:
+                st["lhs"] = fn(st["lhs"])
+            rv = st.get("rv")
+            if rv:
+                if "a" in rv:
+                    rv["a"] = [op(a) for a in rv["a"]]
+                if "pl" in rv:
+                    rv["pl"] = fn(rv["pl"])
+        t = blk["term"]
+        k = t["t"]
+        if k == "switch":
+            t["on"] = op(t["on"])
+        elif k == "call":
+            t["args"] = [op(a) for a in t["args"]]
+            t["dest"] = fn(t["dest"])
+            if "indirect" in t:
+                t["indirect"] = op(t["indirect"])
+        elif k == "drop":
+            t["pl"] = fn(t["pl"])
+        elif k == "assert":
+            t["cond"] = op(t["cond"])
+
+
+_INV_ADTS = None
+
+
+def _new_adt(path):
+    global _INV_ADTS
+    if _INV_ADTS is None:
+        p = os.path.join(os.path.dirname(os.path.dirname(os.path.abspath(__file__))), "tables", "known_fns.json")
+        try:
+            _INV_ADTS = set(json.load(open(p)).get("adts", []))
+        except OSError:
+            _INV_ADTS = set()
+    return bool(_INV_ADTS) and path not in _INV_ADTS
+
+
+def _struct_arg_fields(F, f, operand):
+    """the operands a struct literal was built from, for a call argument that is that struct or a reference to it: follows copies and
+    re-borrows back to the one aggregate assignment.  None when the argument is anything else"""
+    defs = f.defs()
+    pl = operand.get("pl") if operand.get("k") in ("cp", "mv") else None
+    for _ in range(32):
+        if pl is None or [e for e in pl.get("p", []) if e != "*"]:
+            return None
+        ds = [d for d in defs.get(pl["l"], []) if d[1] is not None and not f.is_cleanup(d[0])]
+        if len(ds) != 1:
+            return None
+        rv = ds[0][2]["rv"]
+        if rv["r"] == "agg":
+            return list(rv["a"])
+        if rv["r"] == "use" and rv["a"][0].get("k") in ("cp", "mv"):
+            pl = rv["a"][0]["pl"]
+        elif rv["r"] == "ref":
+            pl = rv["pl"]
+        else:
+            return None
+    return None
+
+
+def scalarise_struct_params(F, allfns):
+    """A refactor may bundle the arguments of a system-call wrapper into a private struct (`FirstFragment { fds, data, len }.transmit(fd)`).  The wrapper stays a function of
+    its own for the rules (it is where the system call is), so its signature is put back: a parameter that is (a reference to) a struct the reference tree does not
+    have, read only field by field in the body and built by a struct literal at every call, is replaced by one parameter per field.  All or nothing per function."""
+    changed = []
+    for g in list(allfns.values()):
+        if not is_anchor(g) or strip_generics(g.path) in inventory() or g.path in inventory():
+            continue
+        for i in range(g.argc, 0, -1):
+            ty = g.local_ty(i)
+            byref = ty.startswith("&")
+            adt = g.local_adt(i) if hasattr(g, "local_adt") else ""
+            a = F.adts.get(adt)
+            if not a or not _new_adt(adt) or len(a["variants"]) != 1:
+                continue
+            fields = a["variants"][0]["fields"]
+            k = len(fields)
+            if k == 0:
+                continue
+            # the body touches the parameter only as (*p).field / p.field
+            ok = True
+            ftypes = {}
+
+            def probe(pl):
+                nonlocal ok
+                if pl["l"] == i:
+                    pr = pl.get("p", [])
+                    want = 2 if byref else 1
+                    if len(pr) < want or (byref and pr[0] != "*") or not isinstance(pr[want - 1], dict) or "f" not in pr[want - 1]:
+                        ok = False
+                    else:
+                        ftypes[pr[want - 1]["f"]] = pr[want - 1].get("t", "")
+                return pl
+            graw = copy.deepcopy(g.raw)
+            _each_place(graw, probe)
+            if not ok:
+                continue
+            # every call passes a struct literal
+            sites = []
+            for f in allfns.values():
+                for blk in f.raw["blocks"]:
+                    t = blk["term"]
+                    if t["t"] == "call" and not blk["cleanup"] and (t.get("resolved") == g.path or (t.get("callee") == g.path and not t.get("resolved"))):
+                        ops = _struct_arg_fields(F, f, t["args"][i - 1]) if len(t["args"]) >= i else None
+                        if ops is None or len(ops) != k:
+                            ok = False
+                        sites.append((t, ops))
+            if not ok or not sites:
+                continue
+            shift = k - 1
+
+            def rewrite(pl):
+                if pl["l"] == i:
+                    pr = pl.get("p", [])
+                    want = 2 if byref else 1
+                    out = {"l": i + pr[want - 1]["f"]}
+                    rest = pr[want:]
+                    if rest:
+                        out["p"] = rest
+                    return out
+                pl = dict(pl)
+                if pl["l"] > i:
+                    pl["l"] += shift
+                if pl.get("p"):
+                    pl["p"] = [(dict(e, i=e["i"] + shift) if isinstance(e, dict) and "i" in e and e["i"] > i else e) for e in pl["p"]]
+                return pl
+            _each_place(graw, rewrite)
+            new_locals = []
+            for l in graw["locals"]:
+                if l["i"] < i:
+                    new_locals.append(l)
+                elif l["i"] == i:
+                    for fi, fd_ in enumerate(fields):
+                        fty = ftypes.get(fi) or fd_["t"]
+                        new_locals.append({"i": i + fi, "t": re.sub(r"'[a-z_]+ ", "", fty), "adt": ""})
+                else:
+                    new_locals.append({"i": l["i"] + shift, "t": l["t"], "adt": l["adt"]})
+            graw["locals"] = new_locals
+            names = {}
+            for kk, v in graw["names"].items():
+                kk = int(kk)
+                if kk < i:
+                    names[str(kk)] = v
+                elif kk > i:
+                    names[str(kk + shift)] = v
+            for fi, fd_ in enumerate(fields):
+                names[str(i + fi)] = fd_["n"]
+            graw["names"] = names
+            graw["argc"] = g.argc + shift
+            graw["scalarised"] = sorted(set(graw.get("scalarised", []) + [adt]))
+            for t, ops in sites:
+                t["args"] = t["args"][:i - 1] + [dict(o, k="cp") if o.get("k") == "mv" else o for o in ops] + t["args"][i:]
+            g2 = Fn(graw, g.facts if hasattr(g, "facts") else None)
+            allfns[g.path] = g2
+            g = g2
+            changed.append("%s(%s)" % (g.path, adt))
+    # the callers' Fn objects cache derived data: rebuild those whose calls were rewritten
+    return changed
 
 
 def _tls_type(t, key_ty):
@@ -713,6 +916,9 @@ class InlinedFacts:
                 if gf is not None and (gf.kind == "Closure" or "Public" not in (gf.vis or "") or gf.impl_trait == "std::ops::Drop" or gf.impl_trait in nt
                                        or (gf.parent or "") in nt):
                     self.consumed.add(g)
+        self.scalarised = scalarise_struct_params(F, allfns)
+        if self.scalarised:
+            allfns = {p: Fn(f.raw, self) for p, f in allfns.items()}
         self.fns = {p: f for p, f in allfns.items() if p not in self.consumed}
         self.all_fns = allfns
 
